@@ -341,8 +341,40 @@ def mir_cross(ctx, rep, visited_casts, visited_arith):
     rep.extra['overflow_checks'] = f.cfg.get('overflow_checks')
     rep.ob('mir-coverage', 'narrowing casts', not missing_c, 'narrowing casts that the range analysis never evaluated: %s' % missing_c[:6], detail={'mir_sites': n_c, 'missing': missing_c[:10]})
     rep.ob('mir-coverage', 'overflow traps', not missing_a, 'overflow-checked operations that the range analysis never evaluated: %s' % missing_a[:6], detail={'mir_sites': n_a, 'missing': missing_a[:10]})
+    if ctx.tier == 'thorough':
+        clippy_cross(ctx, rep, visited_casts, visited_arith)
     if ctx.facts_rel is not None:
         n_rel = sum(1 for m in ctx.facts_rel.mir.values() for a in m['asserts'] if a['kind'] == 'overflow')
         rep.extra['release_like_overflow_asserts'] = n_rel
         rep.ob('mir-coverage', 'release build has no overflow traps', n_rel == 0 and not ctx.facts_rel.cfg.get('overflow_checks'),
                'a build with overflow checks off still contains %d overflow assertions' % n_rel, detail={'release_like_asserts': n_rel})
+
+
+def clippy_cross(ctx, rep, visited_casts, visited_arith):
+    """thorough: an independent enumeration of the same site kinds by clippy (type-resolved lints the project never
+    enabled) must be a subset of what the range analysis evaluated"""
+    import subprocess, json, os
+    here = os.path.dirname(os.path.dirname(os.path.abspath(__file__)))
+    env = dict(os.environ, CARGO_TARGET_DIR=os.path.join(here, '.cache', 'target-clippy'), CARGO_NET_OFFLINE='true')
+    p = subprocess.run(['cargo', '+nightly', 'clippy', '--offline', '--lib', '--message-format=json', '--', '-W', 'clippy::cast_possible_truncation', '-W', 'clippy::arithmetic_side_effects'],
+                       cwd=ctx.repo, env=env, stdout=subprocess.PIPE, stderr=subprocess.DEVNULL, text=True)
+    casts = []; arith = []
+    for l in p.stdout.splitlines():
+        try: m = json.loads(l)
+        except Exception: continue
+        if m.get('reason') != 'compiler-message': continue
+        code = (m['message'].get('code') or {}).get('code') or ''
+        for s in m['message']['spans']:
+            if not s.get('is_primary'): continue
+            site = '%s:%d:%d' % (s['file_name'], s['line_start'], s['column_start'])
+            if code == 'clippy::cast_possible_truncation': casts.append(site)
+            elif code == 'clippy::arithmetic_side_effects': arith.append(site)
+    rep.extra['clippy_cast_sites'] = len(casts); rep.extra['clippy_arith_sites'] = len(arith)
+    rep.ob('clippy-cross', 'clippy ran', bool(casts) and bool(arith), 'clippy produced no sites (exit %s)' % p.returncode)
+    def near(site, visited):
+        f, l, c = site.rsplit(':', 2)
+        return any(v and v.startswith(f + ':' + l + ':') for v in visited)
+    mc = [s for s in casts if not near(s, visited_casts)]
+    ma = [s for s in arith if not near(s, visited_arith)]
+    rep.ob('clippy-cross', 'cast_possible_truncation sites evaluated', not mc, 'clippy cast sites the range analysis never evaluated: %s' % mc[:8], detail={'clippy_sites': len(casts), 'missing': mc[:20]})
+    rep.ob('clippy-cross', 'arithmetic_side_effects sites evaluated', not ma, 'clippy arithmetic sites the range analysis never evaluated: %s' % ma[:8], detail={'clippy_sites': len(arith), 'missing': ma[:20]})
